@@ -21,6 +21,12 @@ MoveForgetting(mv, q) == Partial /\ Move(mv) /\ part' = [p \in Parts |-> IF p = 
 Next2 == \E mv \in Motions : MoveAll(mv) \/ \E q \in Parts : MoveForgetting(mv, q)
 Spec2 == Init2 /\ [][Next2]_vars2
 
+(* forms in which the axes and the loads of a beam problem are written.  The vertical axis of the section may be given        *)
+(* perpendicular to the member or merely in the plane (member, vertical) - the frame is the orthonormalised one either way -;   *)
+(* the load is a force at the tip or a force per unit length along the member, both given by their GLOBAL components.           *)
+BeamForms == [yaxis : {"perp", "oblique"}, load : {"tip", "line"}]
+EmitForms == (Emit /\ moves = <<>>) => PrintT(<<"FORMS", ToJson(BeamForms)>>)
+
 AllFramesEqual == \A p, q \in Parts : part[p] = part[q]
 EmitFrame == Emit => PrintT(<<"FRAME", ToJson([moves |-> moves, A |-> A, b |-> b, det |-> Det3(A)])>>)
 =============================================================================
